@@ -31,7 +31,9 @@ import (
 	"syscall"
 	"time"
 
+	"github.com/notaryproject/notation-core-go/revocation"
 	corecrl "github.com/notaryproject/notation-core-go/revocation/crl"
+	"github.com/notaryproject/notation-core-go/revocation/result"
 	"github.com/notaryproject/notation-core-go/signature"
 	"github.com/notaryproject/notation-go"
 	"github.com/notaryproject/notation-go/config"
@@ -1048,7 +1050,7 @@ func child(batch int, seed int64, tier, outDir string) {
 			if rng.Intn(3) == 0 {
 				in = mutateBytes(rng, in)
 			}
-			variant, ctor := rng.Intn(6), rng.Intn(3)
+			variant, ctor := rng.Intn(9), rng.Intn(3)
 			level := []string{"strict", "permissive", "audit"}[rng.Intn(3)]
 			run("revocation validator configurations", fmt.Sprintf("%s variant=%d constructor=%d %s", id, variant, ctor, level), in, func() {
 				opts := verifier.VerifierOptions{}
@@ -1063,6 +1065,12 @@ func child(batch int, seed int64, tier, outDir string) {
 					opts.RevocationClient, opts.RevocationTimestampingValidator = lib.OKRevLegacy{}, lib.OKRev{}
 				case 4:
 					opts.RevocationClient, opts.RevocationCodeSigningValidator = lib.OKRevLegacy{}, lib.OKRev{}
+				case 6: // validators whose answer does not line up with the chain (longer, shorter, empty, nil entries, nil)
+					opts.RevocationCodeSigningValidator, opts.RevocationTimestampingValidator = oddRev{rng.Intn(6)}, lib.OKRev{}
+				case 7:
+					opts.RevocationCodeSigningValidator, opts.RevocationTimestampingValidator = lib.OKRev{}, oddRev{rng.Intn(6)}
+				case 8:
+					opts.RevocationClient, opts.RevocationTimestampingValidator = oddRev{rng.Intn(6)}, oddRev{rng.Intn(6)}
 				}
 				doc := lib.OCIPolicy(trustpolicy.SignatureVerification{VerificationLevel: level, VerifyTimestamp: []trustpolicy.TimestampOption{"", "always", "afterCertExpiry"}[rng.Intn(3)]}, []string{"ca:x", "tsa:t"}, []string{"*"})
 				mts := lib.NewMemTS().Put("ca:x", good.Root().Cert).Put("tsa:t", tsaRoot.Cert)
@@ -1104,6 +1112,9 @@ func child(batch int, seed int64, tier, outDir string) {
 			stderr := []byte(`{"errorCode":"VALIDATION_ERROR","errorMessage":"m","errorMetadata":{"k":"v"}}`)
 			if rng.Bool() {
 				stderr = mutateJSON(rng, stderr)
+			} else if rng.Intn(3) == 0 {
+				// structured errors with only some of the three members (a code without message, a message without code, ...)
+				stderr = []byte([]string{`{"errorCode":"THROTTLED"}`, `{"errorMessage":"only a message"}`, `{"errorCode":"ERROR","errorMessage":""}`, `{"errorCode":"","errorMessage":"m"}`, `{"errorMetadata":{"k":"v"}}`, `{"errorCode":"THROTTLED","errorMessage":"m"}`}[rng.Intn(6)])
 			}
 			exit := []int{0, 0, 1, 3}[rng.Intn(4)]
 			in := append(append([]byte{}, stdout...), stderr...)
@@ -1195,6 +1206,20 @@ func say(errs ...error) {
 		for depth := 0; e != nil && depth < 50; depth++ {
 			_ = e.Error()
 			errors.Is(e, context.Canceled)
+			// ... and compared with the library's own error values, with and without a message on either side (the way a
+			// caller tests for a code: errors.Is(err, proto.RequestError{Code: ...}))
+			for _, code := range []pf.ErrorCode{pf.ErrorCodeThrottled, pf.ErrorCodeGeneric, ""} {
+				errors.Is(e, proto.RequestError{Code: code})
+				errors.Is(e, proto.RequestError{Code: code, Err: errors.New("m")})
+				errors.Is(proto.RequestError{Code: code}, e)
+				errors.Is(proto.RequestError{Code: code, Err: errors.New("m")}, e)
+			}
+			var re proto.RequestError
+			if errors.As(e, &re) {
+				errors.Is(e, proto.RequestError{Code: re.Code})
+				errors.Is(proto.RequestError{Code: re.Code}, e)
+				errors.Is(e, proto.RequestError{Code: re.Code, Err: errors.New("another message")})
+			}
 			e = errors.Unwrap(e)
 		}
 	}
@@ -1320,4 +1345,43 @@ func main() {
 	r.RequireAtLeast("pair:error", 1000)
 	r.RequireAtLeast("pair:no-error", 100)
 	r.Finish()
+}
+
+// oddRev: a revocation validator (both interfaces) whose answer does not line up with the chain it was asked about.
+type oddRev struct{ mode int }
+
+func (o oddRev) vec(n int) []*result.CertRevocationResult {
+	ok := func() *result.CertRevocationResult {
+		return &result.CertRevocationResult{Result: result.ResultOK, ServerResults: []*result.ServerResult{{Result: result.ResultOK}}}
+	}
+	var out []*result.CertRevocationResult
+	switch o.mode {
+	case 0: // one more than certificates
+		for i := 0; i <= n; i++ {
+			out = append(out, ok())
+		}
+	case 1: // many more
+		for i := 0; i < n+40; i++ {
+			out = append(out, ok())
+		}
+	case 2: // one fewer
+		for i := 0; i+1 < n; i++ {
+			out = append(out, ok())
+		}
+	case 3:
+		out = []*result.CertRevocationResult{}
+	case 4: // nil entries
+		out = make([]*result.CertRevocationResult, n)
+	default: // an entry without server results and with a method nobody defined
+		for i := 0; i < n; i++ {
+			out = append(out, &result.CertRevocationResult{Result: result.Result(99), RevocationMethod: result.RevocationMethod(77)})
+		}
+	}
+	return out
+}
+func (o oddRev) ValidateContext(ctx context.Context, opts revocation.ValidateContextOptions) ([]*result.CertRevocationResult, error) {
+	return o.vec(len(opts.CertChain)), nil
+}
+func (o oddRev) Validate(certChain []*x509.Certificate, signingTime time.Time) ([]*result.CertRevocationResult, error) {
+	return o.vec(len(certChain)), nil
 }
